@@ -124,8 +124,8 @@ pub fn hand_tables() -> Vec<Table> {
 }
 
 /// Long texts for the hand tables: one word (bare, after a space, after another letter) made of a
-/// short pattern repeated up to a byte length just below, at and just above 2^8 and 2^10 (thorough:
-/// also 2^12) -- behaviour that changes at a size threshold (chunking, a fast path for short words)
+/// short pattern repeated up to a byte length just below, at and just above 2^8, 2^10 and 2^12 (quick:
+/// 2^12 with two patterns only) -- behaviour that changes at a size threshold (chunking, a fast path for short words)
 /// is out of reach of the exhaustive short strings.
 pub fn long_texts(quick: bool) -> Vec<String> {
     let mut lens = vec![255usize, 256, 257, 1023, 1024, 1025];
@@ -133,6 +133,21 @@ pub fn long_texts(quick: bool) -> Vec<String> {
         lens.extend([4095, 4096, 4097]);
     }
     let mut out = vec![];
+    // quick: around 2^12 only an ASCII and a two-byte pattern, bare and after a space (the reference
+    // encoder is quadratic in the word length)
+    if quick {
+        for l in [4095usize, 4096, 4097, 4098] {
+            for pattern in ["ab", "ä"] {
+                for lead in ["", " "] {
+                    let mut t = lead.to_string();
+                    while t.len() + pattern.len() <= l {
+                        t.push_str(pattern);
+                    }
+                    out.push(t);
+                }
+            }
+        }
+    }
     for l in lens {
         for pattern in ["ab", "abc", "a", "ä", "ba"] {
             for lead in ["", " ", "b", "x "] {
